@@ -113,6 +113,10 @@ class UniqueNames:
         for stm in prg:
             for spred in predicates(stm):
                 self.predicates.add(spred.pred)
+            # every atom of the program, also in #show/#external/#heuristic/#edge statements and classically negated
+            for atom in collect_ast(stm, "SymbolicAtom"):
+                for symbol in collect_ast(atom.symbol, "Function")[:1]:
+                    self.predicates.add(Predicate(symbol.name, len(symbol.arguments)))
 
     def new_auxpredicate(self, arity: int) -> Predicate:
         """provide a unique aux Predicate"""
